@@ -35,4 +35,4 @@ Deliverables, all under `{wt}/SEEDED/` (create it):
   - `{VA}/patch.diff`, `{VB}/patch.diff`: output of `git diff` for the source change only (no demo files, nothing under SEEDED/). Each must apply with `git apply` to a clean checkout of this worktree's HEAD.
   - `{VA}/demo/…`, `{VB}/demo/…`: the demonstration file(s) with, in `{VA}/demo/README.txt`, the exact path where each file must be placed and the exact command to run it.
   - `{VA}/meta.json`, `{VB}/meta.json`: {{"property": "{p['id']}", "variant": "{VA}", "summary": "...what the change does...", "why_it_breaks_the_property": "...", "needs_to_manifest": "...the specific input / interleaving / fault / sequence...", "files_touched": [...], "existing_tests_run": "...commands and results...", "demo_command": "...", "demo_result_with_change": "FAIL ...", "demo_result_without_change": "PASS"}}
-Before finishing: `git stash`/`git checkout` so that the worktree's tracked files are back at HEAD (leave only SEEDED/ and nothing else untracked), and verify once more from that clean state that each patch applies, builds, passes the existing tests of the touched packages, and that the demo fails with / passes without it. Also create `SEEDED/go.mod` containing `module seeded` so that the stored demo files do not disturb `go test ./...` at the repository root. Aim for breaks that are NOT the first thing one would think of for this property: favour subtle state-dependent, ordering-dependent, boundary-value or cross-component changes over simply deleting a check. Report briefly what the two variants are.""" + avoid)
+Before finishing (do NOT use `git stash` - the stash is shared by all worktrees of this repository and other developers are working in sibling worktrees; use `git diff > file; git checkout -- .; git apply file` instead): `git checkout` so that the worktree's tracked files are back at HEAD (leave only SEEDED/ and nothing else untracked), and verify once more from that clean state that each patch applies, builds, passes the existing tests of the touched packages, and that the demo fails with / passes without it. Also create `SEEDED/go.mod` containing `module seeded` so that the stored demo files do not disturb `go test ./...` at the repository root. Aim for breaks that are NOT the first thing one would think of for this property: favour subtle state-dependent, ordering-dependent, boundary-value or cross-component changes over simply deleting a check. Report briefly what the two variants are.""" + avoid)
